@@ -314,6 +314,60 @@ Theorem C02_loops_tie :
 Proof. exact loops_tie. Qed.
 Print Assumptions C02_loops_tie.
 
+(* (1c) `x in "<s>"` / `x not in "<s>"` (round 4): a container whose own __contains__ is not element-wise.
+   InPredicate receives the container itself (read off the source); Literal members always survive; other members
+   survive under the clause nonelementwise_container (finding C02-in-nonelementwise-container), which is refuted
+   without it; the seeded rule (InPredicate receives the iterated elements) loses a Literal member *)
+Theorem C02_in_arg_tie : gen_in_arg = model_in_arg.
+Proof. exact in_arg_tie. Qed.
+Print Assumptions C02_in_arg_tie.
+
+Theorem C02_instr_keeps_value_partial : forall V s pol o,
+  wf_obj o = true -> member o V = true -> holds_instr s o = Some pol -> nonelementwise_container s o = false ->
+  member o (instr_narrow V s pol) = true.
+Proof. exact instr_keeps_value_partial. Qed.
+Print Assumptions C02_instr_keeps_value_partial.
+
+Theorem C02_instr_literals_kept : forall V s pol o,
+  all_known V = true -> member o V = true -> holds_instr s o = Some pol ->
+  member o (instr_narrow V s pol) = true.
+Proof. exact instr_literals_kept. Qed.
+Print Assumptions C02_instr_literals_kept.
+
+Theorem C02_nonelementwise_container_refuted :
+  exists V s o, wf_obj o = true /\ member o V = true /\ holds_instr s o = Some true /\
+    nonelementwise_container s o = true /\ member o (instr_narrow V s true) = false.
+Proof. exact nonelementwise_container_refuted. Qed.
+Print Assumptions C02_nonelementwise_container_refuted.
+
+Theorem C02_instr_elements_rule_refuted :
+  exists V s o, all_known V = true /\ member o V = true /\ holds_instr s o = Some true /\
+    member o (instr_narrow_with ArgElements V s true) = false.
+Proof. exact instr_elements_rule_refuted. Qed.
+Print Assumptions C02_instr_elements_rule_refuted.
+
+(* a constraint applied to a variable other than the tested one (finding C02-callee-constraint-leak): the main
+   theorem's hypothesis "the condition was evaluated on the bound object" is the guard; without it, refuted *)
+Theorem C02_callee_leak_refuted :
+  exists V c pol o o', member o V = true /\ holds c o' = Some pol /\ c02_guard c o' = true /\
+    member o (leak_narrow V c pol) = false.
+Proof. exact callee_leak_refuted. Qed.
+Print Assumptions C02_callee_leak_refuted.
+
+(* `case <pattern> as p` (finding C02-subpattern-constraint-on-subject, = C01's): fine without sub-patterns,
+   refuted with them *)
+Theorem C02_as_bound_without_subpatterns : forall V whole o,
+  member o V = true -> holds whole o = Some true -> c02_guard (CAnd whole CAlways) o = true ->
+  member o (as_bound V whole CAlways) = true.
+Proof. exact as_bound_without_subpatterns. Qed.
+Print Assumptions C02_as_bound_without_subpatterns.
+
+Theorem C02_subpattern_on_subject_refuted :
+  exists V whole sub o, member o V = true /\ holds whole o = Some true /\ c02_guard whole o = true /\
+    member o (as_bound V whole sub) = false.
+Proof. exact subpattern_on_subject_refuted. Qed.
+Print Assumptions C02_subpattern_on_subject_refuted.
+
 Theorem C02_stored_disjoint_rule_refuted :
   exists cur cons V c pol o d,
     In d cur /\ member o V = true /\ (In d cons -> holds c o = Some pol) /\ c02_guard c o = true /\
